@@ -27,6 +27,7 @@
 #include <variant>
 #include <vector>
 
+#include <unifex/detail/verif_hooks.hpp>
 #include <unifex/blocking.hpp>
 #include <unifex/continuations.hpp>
 #include <unifex/get_stop_token.hpp>
@@ -136,6 +137,7 @@ public:
   }
 
   void request_stop() noexcept {
+    UNIFEX_VERIF_POINT(211);
     if (refCount_.fetch_add(1, std::memory_order_relaxed) == 0) {
       // deliver_result already called
       return;
@@ -146,6 +148,7 @@ public:
   }
 
   void element_complete() noexcept {
+    UNIFEX_VERIF_POINT(212);
     if (refCount_.fetch_sub(1, std::memory_order_acq_rel) == 1) {
       stopCallback_.destruct();
 
